@@ -61,7 +61,7 @@ def unit(args: dict) -> dict:
             else:
                 out["divergent"] += 1
                 traces.append({"mi": e.mi, "tag": f"edge:{w}",
-                               "steps": [{"t": r[i][0]["now"], "op": steps[i]["op"], "out": r[i][1], "svcs": r[i][0]["svcs"], "timers": r[i][0]["timers"],
+                               "steps": [{"t": r[i][0]["now"], "op": steps[i]["op"], "out": r[i][1], "svcs": r[i][0]["svcs"], "timers": r[i][0]["timers"], "queue": r[i][0]["queue"],
                                           "config": r[i][0]["config"], "status": r[i][0]["status"]} for i in range(len(r))]})
                 tctx.append((b, steps, r))
         if edges:
@@ -106,6 +106,8 @@ def run(prop: str, tier: str, seed: int) -> int:
     q = tier == "quick"
     if prop == "C09":
         specs = gen.family_V(seed, 12 if q else 120)
+    elif prop == "C04":
+        specs = gen.family_X(seed, 9 if q else 90, race=True) + gen.family_V(seed + 1, 6 if q else 60)
     elif prop == "C14":
         specs = gen.family_X(seed, 7 if q else 70) + gen.family_V(seed + 1, 6 if q else 60)
     else:
